@@ -11,7 +11,7 @@ CONSTANT Variant   \* "model" (expected result computed) | "all" (inputs only, e
 M(v)  == Hash(<< <<"k", Str(v)>>, <<"n", IntV(2)>> >>)
 O     == Opaque("OBJ")
 MCData == { << <<<<"m", M("vis")>>, <<"s", Arr(<<M("a"), M("b"), M("a")>>)>>, <<"o", O>>, <<"os", Arr(<<O, O>>)>>,
-                 <<"mm", Hash(<< <<"in", M("deep")>>, <<"o", O>> >>)>>, <<"key", Str(kk)>> >>, <<>>, <<>>, <<>> >>
+                 <<"mm", Hash(<< <<"in", M("deep")>>, <<"o", O>> >>)>>, <<"key", Str(kk)>>, <<"cb", Opaque("CB")>> >>, <<>>, <<>>, <<>> >>
             : kk \in {"secret", "__class__", "k"} }
 MCCfgs == {[Cfg("+", TRUE, FALSE, "default") EXCEPT !.shopify = TRUE]}
 MCPartials == << <<"p", <<NText("[p]")>>>> >>
@@ -44,6 +44,9 @@ Lams  == {F(sq, <<Fl("map", <<Lam(<<"x">>, Path(<<Key("x"), Key(n)>>))>>)>> \o S
 Reserved == {F(sq, <<Fk(f, a, <<WArg(kw, obj)>>)>>) : sq \in {V("s"), V("m"), S("lit")}, obj \in {V("o"), V("m")},
                 <<f, a, kw>> \in {<<"join", <<S(",")>>, "environment">>, <<"escape", <<>>, "environment">>, <<"url_encode", <<>>, "environment">>,
                                  <<"t", <<>>, "context">>, <<"map", <<S("k")>>, "context">>, <<"gettext", <<>>, "context">>, <<"date", <<S("%Y")>>, "environment">>}}
+\* a callable context value where a filter takes a key or an arrow function, and as a plain value
+Callables == {F(sq, <<Fl(f, <<V("cb")>>)>>) : sq \in {V("s"), V("os"), V("m")}, f \in KeyF \cup {"find", "has", "find_index", "join", "default", "append"}}
+             \cup {P(V("cb")), F(V("cb"), <<Fl("upcase", <<>>)>>), F(V("cb"), <<Fl("size", <<>>)>>), P(Path(<<Key("cb"), Key("__call__")>>))}
 PlainF == {F(r, <<Fl(f, <<>>)>>) : r \in {V("m"), V("o"), V("s"), V("os")}, f \in {"size", "first", "last", "join", "upcase", "default", "reverse"}}
 
 LoopN == {"__class__", "__dict__", "__init__", "_keys", "keys", "it", "step", "items", "item", "parentloop", "length", "secret", "name"}
@@ -69,7 +72,7 @@ Tags == {If(Path(<<Key(r), Key(n)>>), <<NText("yes")>>, <<>>, NoElse) : r \in {"
         \cup {If(Contains(V(r), S(n)), <<NText("has")>>, <<>>, NoElse) : r \in {"m", "o"}, n \in {"secret", "k", "__class__"}}
 
 MCPoolAt(i) ==
-  CASE i = 1 -> {NOut(P(e)) : e \in Paths1 \cup Paths2} \cup {NOut(e) : e \in KeyArgs \cup Lams \cup PlainF \cup Reserved} \cup Loops \cup Rows \cup Tags
+  CASE i = 1 -> {NOut(P(e)) : e \in Paths1 \cup Paths2} \cup {NOut(e) : e \in KeyArgs \cup Lams \cup PlainF \cup Reserved \cup Callables} \cup Loops \cup Rows \cup Tags
     [] i = 2 -> {NOut(P(V("a"))), NOut(P(Path(<<Key("a"), Key("__name__")>>)))}
     [] OTHER -> {}
 =============================================================================
